@@ -886,6 +886,22 @@ impl<'a> Utf16Input<'a> {
         b >= Self::SURROGATE_LOW_START && b <= Self::SURROGATE_LOW_END
     }
 
+    /// \return \p offset, moved back to the start of the surrogate pair it splits (if it does).
+    /// An offset between the two halves of a pair is not a character boundary: stepping left
+    /// from a later position decodes the whole pair and passes it.
+    #[inline(always)]
+    pub(crate) fn floor_char_boundary(&self, offset: usize) -> usize {
+        if offset > 0
+            && offset < self.input.len()
+            && Self::is_low_surrogate(self.input[offset])
+            && Self::is_high_surrogate(self.input[offset - 1])
+        {
+            offset - 1
+        } else {
+            offset
+        }
+    }
+
     #[inline(always)]
     fn code_point_from_surrogates(high: u16, low: u16) -> u32 {
         (((high & 0x3ff) as u32) << 10 | (low & 0x3ff) as u32) + 0x1_0000
